@@ -49,6 +49,8 @@ def native_replay(crate, hfile, test_text, timeout=900):
     """Append Kani's concrete-playback unit test to the scratch copy of the harness module and run it
     natively (rustc-compiled real code, Kani's playback runtime feeding the counterexample values)."""
     p = os.path.join(crate, "verif_kani", hfile)
+    k = open(p).read().count("concrete playback test appended")
+    test_text = re.sub(r"fn (kani_concrete_playback_\w+)\(", lambda m: "fn %s_r%d(" % (m.group(1), k), test_text)
     with open(p, "a") as f:
         f.write("\n// ---- concrete playback test appended by /verif/check ----\n" + test_text + "\n")
     names = re.findall(r"fn (kani_concrete_playback_\w+)", test_text)
@@ -73,10 +75,18 @@ def report_violation(pid, tier, crate, failed, out_text, prop):
         if hid.endswith("_x") and hid[:-2] in by_h:
             by_h[hid] = by_h[hid] + by_h.pop(hid[:-2])
     n = 0
-    for hid, fs in by_h.items():
-        first = fs[0]
+    # full counterexample + native replay for at most MAX_REPLAYS units (each costs a Kani re-run and
+    # a native build); prefer replayable twins / stub-free harnesses; the rest are listed in the file.
+    MAX_REPLAYS = int(os.environ.get("VERIF_MAX_REPLAYS", "2"))
+    order = sorted(by_h, key=lambda h: (0 if (h.endswith("_x") or h.endswith("::twin")) else 1,
+                                        0 if any(f["kind"] == "named" for f in by_h[h]) else 1, h))
+    rest = order[MAX_REPLAYS:]
+    others = [{"harness": h, "obligations": sorted(set(f["name"] for f in by_h[h]))} for h in rest]
+    for hid in order[:MAX_REPLAYS]:
+        fs = by_h[hid]
+        first = next((f for f in fs if f["kind"] == "named"), fs[0])
         oname = re.sub(r"[^A-Za-z0-9_.\-]", "_", first["name"])[:100]
-        path = os.path.join(rdir, "%s.json" % oname)
+        path = os.path.join(rdir, "%s__%s.json" % (oname, re.sub(r"[^A-Za-z0-9_]", "_", hid.split("::verif_", 1)[-1])[:60]))
         rep = {"property": pid, "tier": tier, "harness": hid,
                "failed_obligations": [{"name": f["name"], "where": f["where"], "kind": f["kind"]} for f in fs],
                "how_to_rerun": "cd /verif && ./check %s --tier %s   (single harness: cargo kani --exact --harness %s in .work/%s/crate)" % (pid, tier, hid, pid),
@@ -95,14 +105,17 @@ def report_violation(pid, tier, crate, failed, out_text, prop):
         if tests:
             rep["counterexample_tests"] = tests[:4]
             uses_stubs = any("stubs which are not applied" in t for t in tests) or hid in prop.get("stubbed_harnesses", ())
-            hfile = next((f for f in prop["modules"] if harness_path(f + "::x").rsplit("::", 1)[0] == hid.rsplit("::", 1)[0]), None)
+            hfile = next((f for f in prop["modules"] if hid.startswith(harness_path(f + "::x").rsplit("::", 1)[0] + "::")), None)
             if uses_stubs or not hfile:
                 rep["native_replay"] = {"skipped": "the harness abstracts its environment with Kani stubs (atomic-step interference, EBR entry points); "
                                         "Kani's native playback does not apply stubs, so the counterexample values above are the verifier's "
                                         "model of the schedule, not a native run"}
             else:
                 # pick the test generated for the first failed named obligation if possible
-                pick = next((t for t in tests if first["name"] in t), tests[0])
+                asserts = [t for t in tests if "Check for `cover`" not in t] or tests
+                pick = next((t for t in asserts if first["name"] in t), asserts[0])
+                # the appended test lives at the end of the harness module file: name the harness by full path
+                pick = re.sub(r"concrete_playback_run\(concrete_vals, \w+\)", "concrete_playback_run(concrete_vals, crate::%s)" % hid, pick)
                 nr = native_replay(crate, hfile, pick)
                 rep["native_replay"] = nr
                 # the natively compiled real code, fed the counterexample, must fail an assertion/panic
@@ -115,10 +128,13 @@ def report_violation(pid, tier, crate, failed, out_text, prop):
         if not native_ok:
             suffix = " no-failing-input-found"
         rep["replayed_natively_on_real_code"] = native_ok
+        rep["other_failed_units_not_replayed"] = others
         vlib.write_json(path, rep)
         log("VIOLATION property=%s replay=%s obligation=%s harness=%s%s" % (pid, path, first["name"], hid, suffix))
         n += 1
-    return n
+    if others:
+        log("ALSO-FAILED property=%s units=%d (listed in the replay file): %s" % (pid, len(others), ", ".join(o["harness"].split("::", 1)[-1] for o in others[:12])))
+    return n + len(others)
 
 
 def main(argv):
